@@ -1,6 +1,7 @@
 package main
 
 import (
+	"strings"
 	"bytes"
 	"fmt"
 	"math/rand"
@@ -322,7 +323,8 @@ func c13episode(c *Check, rng *rand.Rand, env *Env, w *c13world, kind string, sp
 	w.mu.Lock()
 	w.redir[slot] = rd
 	w.mu.Unlock()
-	tok := newToken("x")
+	// key lengths vary so that the re-sent request is anything from 40 to 250 bytes long
+	tok := newToken("x") + strings.Repeat("p", []int{0, 0, 20, 40, 60, 90, 130, 200}[rng.Intn(8)])
 	var rr *PReq
 	if split {
 		k1 := Key(slot, tok+".0")
@@ -335,6 +337,11 @@ func c13episode(c *Check, rng *rand.Rand, env *Env, w *c13world, kind string, sp
 		w.script.Plan(k2).Gate = gt
 		rr.Gates = []*Gate{gt}
 		rr.Nodes = []int{g.ownerIdx(s2)}
+	} else if rng.Intn(6) == 0 {
+		// a request far larger than any buffer the proxy keeps per fragment
+		k := Key(slot, tok)
+		val := strings.Repeat("V", 70000+rng.Intn(200000))
+		rr = &PReq{Kind: "get", Token: tok, Keys: []string{k}, Bytes: Req("SET", k, val), Expect: StatusReply("OK")}
 	} else {
 		k := Key(slot, tok)
 		rr = &PReq{Kind: "get", Token: tok, Keys: []string{k}, Bytes: Req("GET", k), Expect: BulkReply([]byte("v:" + k))}
